@@ -60,3 +60,14 @@ package tchannel
 //@   modifies allbut own, Frame, errAttempts, closeReq, connErrs, connErrCode, sysErrID, sysErrCode, sysErrMsg, lookupHit, nadmit, admitted, nends, ndec, writableFragment, fragmentingWriter, cs, Connection, nstopped, fragmentingReader, doneCalls, doneCode, reqResReader, InboundCall, OutboundCallResponse
 //@   defines nstopped(mexset) == old(nstopped(mexset)) + 1
 //@   property C04 C14
+
+// "receive priority: context error, then pending frames, then connection
+// error": the exchange's latched error is looked at only after the frame queue
+// has been tried twice -- once in the wait itself and once more, without
+// blocking, after the error latch fired -- so a frame that was already queued
+// when the connection failed is still delivered.
+// (recvtries(ch): built-in count of receive attempts on a channel.)
+//@ func (mex *messageExchange) recvPeerFrame() (f *Frame, err error)
+//@   label queued-frames-win-over-the-latched-error
+//@   atread err recvtries(mex.recvCh) >= old(recvtries(mex.recvCh)) + 2
+//@   property C04
